@@ -1,5 +1,6 @@
 import TvCore.Props.C04
 import TvCore.Props.C04Socks
+import TvCore.Props.C04Mcast
 #print axioms TV.C04.only_dropObj
 #print axioms TV.C04.only_dropAll
 #print axioms TV.C04.crash_frame
@@ -21,3 +22,10 @@ import TvCore.Props.C04Socks
 #print axioms TV.C04.dropAll_releases_socks
 #print axioms TV.C04.crash_releases_socks
 #print axioms TV.C04.bounce_releases_socks
+#print axioms TV.C04.mem_swapRemoveAt
+#print axioms TV.C04.mgLeaveAll_keeps
+#print axioms TV.C04.mgLeaveAll_removes
+#print axioms TV.C04.mgLeaveAll_sub
+#print axioms TV.C04.mkeeps_dropObj
+#print axioms TV.C04.crash_keeps_membership
+#print axioms TV.C04.bounce_keeps_membership
